@@ -99,6 +99,16 @@ static Bytes apply_faults(const Scn &s, const Baseline &B, uint8_t key[16]) {
     else if (k == "trunc") { if ((size_t)A(0) < F.size()) F.resize(A(0)); }
     else if (k == "ext0") { F.insert(F.end(), (size_t)A(0), 0); }
     else if (k == "extg") { F.insert(F.end(), r.data.begin(), r.data.end()); }
+    else if (k == "mdpad") {
+      // the classic extension of a Merkle-Damgard hash: append the padding the hash itself would append to the authenticated
+      // region [48, EOF), counted with A(0) bytes in front of it (0, or 64 for HMAC's key block); A(1): 0 = big-endian bit
+      // count (SHA), 1 = little-endian (MD5).  A closed hash makes this just another modification.
+      uint64_t n = (uint64_t)A(0) + (F.size() > 48 ? F.size() - 48 : 0);
+      F.push_back(0x80);
+      while ((A(0) + (F.size() - 48)) % 64 != 56) F.push_back(0);
+      uint64_t bits = n * 8;
+      for (int q = 0; q < 8; q++) F.push_back((uint8_t)(A(1) ? bits >> (8 * q) : bits >> (8 * (7 - q))));
+    }
     else if (k == "exttail") { size_t n = std::min<size_t>(A(0), F.size()); Bytes t(F.end() - n, F.end()); F.insert(F.end(), t.begin(), t.end()); }
     else if (k == "swapblk" || k == "dupblk") {
       size_t nb = F.size() > hs ? (F.size() - hs) / 16 : 0;
@@ -158,7 +168,8 @@ static Rec random_fault(Rng &g, long L, int T) {
   case 11: return mkrec("swapchunk", {(long)g.below(1000), (long)g.below(1000)});
   case 12: return mkrec("dupchunk", {(long)g.below(1000), (long)g.below(1000)});
   case 13: return mkrec("splice", {hs + (long)g.below((uint64_t)std::max<long>(L - hs, 1))});
-  case 14: return mkrec("set", {8 + (long)g.below(2), (long)g.below(8)});        // mode bytes, mostly valid numbers
+  case 14: if (g.chance(0.3)) return mkrec("mdpad", {g.chance(0.5) ? 64 : 0, (long)g.below(2)});
+           return mkrec("set", {8 + (long)g.below(2), (long)g.below(8)});        // mode bytes, mostly valid numbers
   default: return mkrec("flip", {10 + (long)g.below(38), (long)g.below(8)});     // tag / zero-fill area
   }
 }
@@ -309,6 +320,8 @@ static void gen_C05_like(const std::string &tier, uint64_t seed, long idx, Scn &
   j -= L - hs;
   if (j < L) { s.faults.push_back(mkrec("trunc", {j})); return; }
   j -= L;
+  if (j < 4) { s.faults.push_back(mkrec("mdpad", {(j & 1) ? 64 : 0, j >> 1})); return; }
+  j -= 4;
   if (tier != "quick") {
     if (j < 8 * (L - hs)) { s.faults.push_back(mkrec("flip", {hs + j / 8, j % 8})); return; }
     j -= 8 * (L - hs);
